@@ -196,6 +196,69 @@ def notif_replay(ctx, n):
                      'ValueError=%r' % (o[4], o[5], o[6]), family='notif-replay')
 
 
+def cancel_self_replay(ctx, n):
+    """NotifProto.v part 2a (Scope._cancel_self) against the real Scope: `__cancel__()` (child failures), the kernel popping
+    the queued activations (delivered unless revoked), `_disable_interrupts()` (the head of _close_scope), in random
+    histories, on a real Scope under a stand-in loop, and through `crun`"""
+    from usim._primitives.context import Scope
+    from usim._core.handler import __USIM_STATE__ as state
+    from harness.check import parse_nat_list
+    rng = ctx.rng
+
+    class FakeLoop:
+        time = 0
+        activity = None
+
+        def __init__(self):
+            self.q = []
+
+        def schedule(self, target, signal=None, *, delay=None, at=None):
+            self.q.append((target, signal))
+            if signal is not None:
+                signal.scheduled = True
+    cases = []
+    for _ in range(n):
+        loop, scope = FakeLoop(), Scope()
+        scope._activity = 'owner'
+        evs, got, late, inside = [], 0, 0, True
+        with state.assign(loop):
+            for _ in range(rng.randint(0, 9)):
+                e = rng.choice(['CFail', 'CFail', 'CPop', 'CPop', 'CClose'])
+                evs.append(e)
+                if e == 'CFail':
+                    scope.__cancel__()
+                elif e == 'CPop':
+                    if loop.q:
+                        target, sig = loop.q.pop(0)
+                        if sig:
+                            got += 1
+                            late += 0 if inside else 1
+                else:
+                    scope._disable_interrupts()
+                    inside = False
+        cases.append((evs, (bool(scope._interruptable), bool(scope._cancel_self._revoked), len(loop.q), got, late)))
+    text = ['From Coq Require Import List Arith Bool.', 'From Usim Require Import NotifProto.', 'Import ListNotations.',
+            'Definition same (s : cst) (i r : bool) (q g l : nat) : bool :=',
+            '  Bool.eqb (c_int s) i && Bool.eqb (c_revk s) r && Nat.eqb (c_q s) q && Nat.eqb (c_got s) g && Nat.eqb (c_late s) l.',
+            'Definition bad : list nat := flat_map (fun x => x) [%s].' % ';\n  '.join(
+                '(if same (crun cinit [%s]) %s %s %d %d %d then [] else [%d])' % (
+                    '; '.join(ev), str(o[0]).lower(), str(o[1]).lower(), o[2], o[3], o[4], i) for i, (ev, o) in enumerate(cases)),
+            'Eval vm_compute in bad.']
+    path = ctx.write_case_file('cancel_self_replay', '\n'.join(text) + '\n')
+    rc, out = ctx.run_case_files([path])[path]
+    bad = parse_nat_list(out) if rc == 0 else None
+    ctx.bump('family:cancel-self-replay', n)
+    if bad is None:
+        ctx.mismatch('cancel-self-replay', None, None, None, 'case file did not evaluate: %s' % out[-500:])
+    else:
+        for i in bad:
+            ctx.mismatch('cancel-self-replay', {'events': cases[i][0]}, cases[i][1], 'model differs', '')
+    for ev, o in cases:
+        if o[4]:
+            ctx.fail({'cancel_self_history': ev}, 'the cancel signal of a scope was delivered %d time(s) after the scope had disabled '
+                     'its interrupts' % o[4], family='cancel-self-replay')
+
+
 def suppressed_failures(rng, n):
     """directed family: a scope / until-scope whose body is finished and which waits for its children is cancelled by a
     child that fails with an error type the scope suppresses (TaskCancelled from awaiting a cancelled task, TaskClosed
@@ -229,6 +292,7 @@ def run(ctx):
     machine_prop.run(ctx, FAMILIES, MONITORS, extra_scenarios=race_family(ctx.rng, ctx.n(120, 3000)) +
                      suppressed_failures(ctx.rng, ctx.n(40, 800)))
     notif_replay(ctx, ctx.n(300, 3000))
+    cancel_self_replay(ctx, ctx.n(300, 3000))
     d16_directed(ctx)
 
 
